@@ -153,6 +153,16 @@ func VerifC15_Window() {
 		d := msgr.prepared[k]
 		vnd.Assert(j.Name == fmt.Sprintf("Prepare sync committee messages for slot %d", d.Slot()), "C15.window.job-named-after-its-slot")
 		vnd.Assert(j.Time.Equal(e.ct.StartOfSlot(d.Slot()).Add(-e.s.slotDuration*6/4)), "C15.window.job-one-and-a-half-slots-ahead")
+		// the prepare job, once it has run, has set up the message job of its slot: at the slot's start
+		// plus the delay configured for sync committee messages (not that of another kind of job)
+		mname := fmt.Sprintf("Sync committee messages for slot %d", d.Slot())
+		vnd.Assert(e.sched.Count(mname) == 1, "C03.syncmessage.prepare-job-sets-up-one-message-job-for-its-slot")
+		if mj := e.sched.Find(mname); mj != nil {
+			vnd.Assert(mj.Time.Equal(e.ct.StartOfSlot(d.Slot()).Add(e.s.maxSyncCommitteeMessageDelay)), "C03.syncmessage.job-time-is-slot-start-plus-the-sync-message-delay")
+			before := len(msgr.messaged)
+			mj.Fn(context.Background())
+			vnd.Assert(len(msgr.messaged) == before+1 && msgr.messaged[before] == d, "C03.syncmessage.job-messages-for-the-prepared-duty")
+		}
 	}
 	if jobs > 0 {
 		// each job's duty names the member and carries its account
